@@ -313,7 +313,7 @@ def config_to_dict(cp):
 
 
 def run_solve(form_list, requested, file_inputs, answer=None, schedule=None, instrument=True,
-              layout=None, keep_solver=False, store=None, field_names=None):
+              layout=None, keep_solver=False, store=None, field_names=None, cpu_seconds=None):
     """One execution of the real solver.
     answer: None (no prompt function) or callable(input_obj, needed_by) -> string | None (refuse)
     """
@@ -350,7 +350,7 @@ def run_solve(form_list, requested, file_inputs, answer=None, schedule=None, ins
     r.verdict = None
     try:
         try:
-            with cpu_limit():
+            with cpu_limit(cpu_seconds):
                 r.verdict = s.solve(list(requested), list(field_names)) if field_names else s.solve(list(requested))
         finally:
             hsolver._verif_key = None
